@@ -55,6 +55,7 @@ def run_prop(prop, tier, seed, replay, nquick, nthorough, extra_cases=None, rule
     ck.tie("harness builds and runs against the current tree", True)
     mon = MONITORS[prop]
     dist = {}
+    nconfirm = 0
     for (tag, case, intents, views), ob in zip(cases, obs):
         for it in intents:
             k = f"{it.get('op')}/{it.get('kind', '')}/{it.get('expect', '')}"
@@ -71,6 +72,18 @@ def run_prop(prop, tier, seed, replay, nquick, nthorough, extra_cases=None, rule
             if s in seen:
                 continue
             seen.add(s)
+            if not replay and nconfirm < 12:
+                nconfirm += 1
+
+                def again(ob2, case=case, intents=intents, views=views):
+                    r2 = mon(case, intents, ob2, views)
+                    for j, o2 in enumerate(ob2):
+                        if "panic" in o2 or o2.get("blocked"):
+                            r2.append(("agent-died", "", j))
+                    return r2
+                if not confirmed(binary, case, sig, again):
+                    ck.notes["unconfirmed_failures"] = ck.notes.get("unconfirmed_failures", 0) + 1
+                    continue
             ck.fail(s, msg, {"tag": tag, "input": case, "intents": intents, "views": views, "event": i,
                              "impl_event": {k: v for k, v in (ob[i] if i < len(ob) else {}).items() if k != "tables"}})
     model_correspondence(ck, [(c[1], ob) for c, ob in zip(cases, obs)], limit=(150 if tier == "quick" else 1200), name=prop)
